@@ -464,6 +464,104 @@ theorem safe_no_bool_len_user_bool_len_not_run :
     pyBool genCfg (.user ⟨1, .absent, .absent, .absent, .absent, .user⟩) false = (true, [.len]) := by
   decide
 
+/-! ### the same statement over the class dictionaries of `type(obj).__mro__` (several bases) -/
+
+/-- FULL, all MROs (any number of bases, any order of builtin containers and user classes): in
+safe mode `py__bool__` runs no user `__bool__` / `__len__`, and it reaches `bool(obj)` only when
+CPython's `bool(obj)` — `__bool__` anywhere along the MRO first, only then `__len__` — runs no
+user code.  Depends on the loop nesting and on the order of the names read from the source. -/
+theorem safe_no_bool_len_mro (mro : List ClassSlots) :
+    (pyBoolMro genCfg mro true).2 = [] ∧
+    ((pyBoolMro genCfg mro true).1 = true → boolCallEventsMro mro = []) := by
+  have key : hasBuiltinBoolMro genCfg mro = true → boolCallEventsMro mro = [] := by
+    simp only [hasBuiltinBoolMro, genCfg, C13.boolWalkMroOuter, C13.boolLookupOrder,
+      hasBuiltinBoolNames, boolCallEventsMro, Bool.false_eq_true, if_false]
+    cases lookupSpecial mro "__bool__" with
+    | some s => cases s <;> simp [slotIsBuiltinMethod, Slot.runsUser]
+    | none =>
+      cases lookupSpecial mro "__len__" with
+      | some s => cases s <;> simp [slotIsBuiltinMethod, Slot.runsUser]
+      | none => simp
+  unfold pyBoolMro
+  cases hb : hasBuiltinBoolMro genCfg mro
+  · simp [genCfg, C13.boolRefuses]
+  · simp [genCfg, C13.boolRefuses, key hb]
+
+/-- `class R(list, Mixin)` with `Mixin.__bool__`: refused in safe mode -/
+example : pyBoolMro genCfg
+    [[], [("__len__", .builtin "wrapper_descriptor")], [("__bool__", .user)], []] true = (false, []) := by
+  decide
+/-- `class R(list, Plain)`: the builtin `__len__` decides, `bool(obj)` is evaluated -/
+example : pyBoolMro genCfg [[], [("__len__", .builtin "wrapper_descriptor")], [], []] true = (true, []) := by
+  decide
+
+/-- the walk the other way round (classes in the outer loop: the first class that has either name
+decides) is NOT safe: for `class R(list, Mixin)` with `Mixin.__bool__` it sees `list.__len__`
+first, reaches `bool(obj)` and runs `Mixin.__bool__` in safe mode.  Kernel-checked witness, and
+the reason why the nesting is a translator-extracted constant. -/
+theorem safe_no_bool_len_mro_class_walk_counter_witness :
+    pyBoolMro { genCfg with boolWalkMroOuter := true }
+      [[], [("__len__", .builtin "wrapper_descriptor")], [("__bool__", .user)], []] true = (true, [.bool]) ∧
+    pyBoolMro { genCfg with boolWalkMroOuter := true }
+      [[], [("__bool__", .user)], [("__len__", .builtin "wrapper_descriptor")], []] true = (false, []) := by
+  decide
+
+/-- unsafe mode evaluates `bool(obj)` and runs the inherited user `__bool__` / `__len__` -/
+theorem unsafe_bool_mro_witness :
+    pyBoolMro genCfg [[], [("__len__", .builtin "wrapper_descriptor")], [("__bool__", .user)], []] false
+      = (true, [.bool]) ∧
+    pyBoolMro genCfg [[("__len__", .user)], [("__len__", .builtin "wrapper_descriptor")], []] false
+      = (true, [.len]) := by
+  decide
+
+set_option linter.unusedSimpArgs false in
+/-- PARTIAL (hypothesis `hwf`: the dictionaries store real entries; `.absent` is the *result* "not
+found", never a stored entry - the harness never sends one): the MRO-level functions refine the
+flattened ones used above (`pyBool` on a user type whose `bool` / `len` slots are what the static
+lookup finds). -/
+theorem bool_mro_refines_flat_partial (mro : List ClassSlots) (safe : Bool) (id : Nat) (gi it nx : Slot)
+    (hwf : mroStoresEntries mro = true) :
+    pyBoolMro genCfg mro safe =
+      pyBool genCfg (.user ⟨id, gi, it, nx, flatSlot mro "__bool__", flatSlot mro "__len__"⟩) safe := by
+  have hb : ∀ s, lookupSpecial mro "__bool__" = some s → s ≠ .absent :=
+    fun s h => lookupSpecial_ne_absent hwf h
+  have hl : ∀ s, lookupSpecial mro "__len__" = some s → s ≠ .absent :=
+    fun s h => lookupSpecial_ne_absent hwf h
+  clear hwf
+  cases hB : lookupSpecial mro "__bool__" with
+  | some sb =>
+    have := hb sb hB
+    cases sb <;>
+      simp_all [pyBoolMro, pyBool, hasBuiltinBoolMro, hasBuiltinBool, genCfg, C13.boolWalkMroOuter,
+        C13.boolLookupOrder, hasBuiltinBoolNames, boolCallEventsMro, boolCallEvents, flatSlot, Ty.slot,
+        slotIsBuiltinMethod, Slot.runsUser, List.find?, Slot.builtin_bne_absent, Slot.user_bne_absent,
+          Slot.noneVal_bne_absent, Slot.other_bne_absent]
+  | none =>
+    cases hL : lookupSpecial mro "__len__" with
+    | some sl =>
+      have := hl sl hL
+      cases sl <;>
+        simp_all [pyBoolMro, pyBool, hasBuiltinBoolMro, hasBuiltinBool, genCfg, C13.boolWalkMroOuter,
+          C13.boolLookupOrder, hasBuiltinBoolNames, boolCallEventsMro, boolCallEvents, flatSlot, Ty.slot,
+          slotIsBuiltinMethod, Slot.runsUser, List.find?, Slot.builtin_bne_absent, Slot.user_bne_absent,
+          Slot.noneVal_bne_absent, Slot.other_bne_absent]
+    | none =>
+      simp_all [pyBoolMro, pyBool, hasBuiltinBoolMro, hasBuiltinBool, genCfg, C13.boolWalkMroOuter,
+        C13.boolLookupOrder, hasBuiltinBoolNames, boolCallEventsMro, boolCallEvents, flatSlot, Ty.slot,
+        slotIsBuiltinMethod, Slot.runsUser, List.find?, Slot.builtin_bne_absent, Slot.user_bne_absent,
+          Slot.noneVal_bne_absent, Slot.other_bne_absent]
+
+example : mroStoresEntries [[], [("__len__", .builtin "wrapper_descriptor")], [("__bool__", .user)]] = true := by
+  decide
+
+/-- without `hwf` the two levels differ: a stored `.absent` is "found" by the walk and "not found"
+in the flattened table -/
+theorem bool_mro_refines_flat_counter_witness :
+    pyBoolMro genCfg [[("__bool__", .absent)]] true ≠
+      pyBool genCfg (.user ⟨1, .absent, .absent, .absent, flatSlot [[("__bool__", .absent)]] "__bool__",
+        flatSlot [[("__bool__", .absent)]] "__len__"⟩) true := by
+  decide
+
 /-! ## completions are a superset of `dir(obj)` -/
 
 /-- FULL, either mode, instance or not: every name of `dir(obj)` is offered by
